@@ -302,6 +302,9 @@ def _light_sin_axioms(eng, t):
                 z3.And((t < b) == (F("sin")(t) < F("sin")(b)), (b < t) == (F("sin")(b) < F("sin")(t))),
             )
         )
+    eng.add_axiom(z3.Implies(z3.And(t >= -H, t <= H), z3.And(s >= -1, s <= 1)))
+    for u in _apps(eng, "larcsin"):
+        eng.add_axiom(z3.Implies(z3.And(u == s, t >= -H, t <= H), F("arcsin")(u) == t))
 
 
 def _trig(x):
@@ -356,7 +359,36 @@ def arccos(x):
     return SV(F("arccos")(u))
 
 
+def _light_arcsin(x):
+    """light mode: arcsin is a strictly increasing map [-1,1] -> [-pi/2,pi/2], inverse of the light sin"""
+    eng = Engine.cur
+    u = _real(x)
+    pi()
+    H = PI / 2
+    f = F("arcsin")
+    eng.side(z3.And(u >= -1, u <= 1))
+    if _register(eng, "larcsin", u):
+        eng.add_axiom(z3.And(f(u) >= -H, f(u) <= H))
+        eng.add_axiom(z3.Implies(u == 0, f(u) == 0))
+        eng.add_axiom(z3.Implies(u == 1, f(u) == H))
+        eng.add_axiom(z3.Implies(u == -1, f(u) == -H))
+        for b in _apps(eng, "larcsin"):
+            if not b.eq(u):
+                eng.add_axiom(z3.Implies(z3.And(u >= -1, u <= 1, b >= -1, b <= 1),
+                                         z3.And((u < b) == (f(u) < f(b)), (b < u) == (f(b) < f(u)))))
+        # sin(arcsin(u)) = u : register the result as a light-sin argument
+        t = f(u)
+        if _register(eng, "lsin", t):
+            _light_sin_axioms(eng, t)
+        eng.add_axiom(z3.Implies(z3.And(u >= -1, u <= 1), F("sin")(t) == u))
+        for t2 in _apps(eng, "lsin"):
+            eng.add_axiom(z3.Implies(z3.And(u == F("sin")(t2), t2 >= -H, t2 <= H), f(u) == t2))
+    return SV(f(u))
+
+
 def arcsin(x):
+    if LIGHT_TRIG:
+        return _light_arcsin(x)
     eng = Engine.cur
     u = _real(x)
     pi()
